@@ -66,9 +66,9 @@ Proof. exact manual_impls_as_modelled. Qed.
 Check C19_manual_impls : same_pairs manual_impl_table expected_manual = true.
 Print Assumptions C19_manual_impls.
 
-Theorem C19_derives : forallb derive_consistent derive_table = true.
+Theorem C19_derives : derive_section_ok && forallb derive_consistent derive_table = true.
 Proof. exact derives_consistent. Qed.
-Check C19_derives : forallb derive_consistent derive_table = true.
+Check C19_derives : derive_section_ok && forallb derive_consistent derive_table = true.
 Print Assumptions C19_derives.
 
 Example C19_example :
